@@ -46,6 +46,33 @@ func main() {
 				res.Sample(map[string]any{"case": "c01", "config": c.String(), "connections": npeers})
 			}
 		}
+	case "c02":
+		ncfg, npeers := 12, 8
+		if res.Thorough() {
+			ncfg, npeers = 0, 16
+		}
+		if *vlib.FlagN > 0 {
+			ncfg = *vlib.FlagN
+		}
+		cfgs := streamConfigs(r, res.Thorough(), ncfg)
+		for i, c := range cfgs {
+			if i%4 == 3 {
+				c.Client = true
+				c.ReusePort = false
+			}
+			if i%3 == 1 {
+				c.SndBuf = 4096
+			}
+			cfgs[i] = c
+		}
+		for i, c := range cfgs {
+			n := runC02Case(c, res.Seed*1000033+uint64(i), npeers, keys)
+			res.Eval(n)
+			res.Checkpoint()
+			if i < 2 {
+				res.Sample(map[string]any{"case": "c02", "config": c.String(), "connections": npeers})
+			}
+		}
 	default:
 		fmt.Fprintln(os.Stderr, "eng: unknown mode", mode)
 		os.Exit(2)
